@@ -165,9 +165,10 @@ func (c *Ctx) boundedAllocation() {
 			continue
 		}
 		n++
-		limit := bounds.Const(268435455)
+		// the largest packet: one type byte, four length bytes, the maximum remaining length
+		limit := bounds.Const(268435455 + 5)
 		ok := bounds.Proves(al.Facts, bounds.LE(al.Size, limit))
-		c.R.Check(ok, "B4-bounded-allocation", fmt.Sprintf("%s:make#%d", fn.Name(), n), c.P.InstrPos(al.Instr), "size <= 268435455 on every path", "the allocation size "+al.Size.String()+" comes from the wire and is not provably bounded by MQTT's maximum remaining length: a few bytes from an unauthenticated peer make the broker allocate gigabytes")
+		c.R.Check(ok, "B4-bounded-allocation", fmt.Sprintf("%s:make#%d", fn.Name(), n), c.P.InstrPos(al.Instr), "size <= 268435455 + 5 (the largest MQTT packet) on every path", "the allocation size "+al.Size.String()+" comes from the wire and is not provably bounded by MQTT's maximum remaining length: a few bytes from an unauthenticated peer make the broker allocate gigabytes")
 	}
 	c.R.Count("wire-sized allocations in the framing reader", n)
 	c.R.Floor("wire-sized allocations in the framing reader", n, 1)
